@@ -1,19 +1,20 @@
 #!/bin/sh
 # usage: tools_try_patch.sh <patch-file|revert:SHA> <ID> [ID...]
-# Applies a change to /repo's working tree, runs the quick checks, restores the tree.
+# Applies a change to a scratch worktree of /repo (never to /repo itself), runs the quick
+# checks against it through VERIF_REPO, and resets the worktree.
 P="$1"; shift
-cd /repo || exit 2
-git diff --quiet || { echo "repo dirty"; exit 2; }
+WT=/tmp/wt-try
+[ -d $WT ] || git -C /repo worktree add -q --detach $WT HEAD
+git -C $WT checkout -q --detach "$(git -C /repo rev-parse HEAD)"; git -C $WT checkout -q -- .; git -C $WT clean -fdq
 case "$P" in
-  revert:*) git revert --no-commit "${P#revert:}" >/dev/null 2>&1 || { echo "revert failed"; git revert --abort 2>/dev/null; git checkout -- .; exit 2; } ;;
-  *) git apply "$P" || { echo "apply failed"; exit 2; } ;;
+  revert:*) git -C $WT revert --no-commit "${P#revert:}" >/dev/null 2>&1 || { echo "revert failed"; git -C $WT revert --abort 2>/dev/null; git -C $WT checkout -q -- .; exit 2; } ;;
+  *) git -C $WT apply "$P" || { echo "apply failed"; exit 2; } ;;
 esac
+mkdir -p /verif/mutation/root-try; [ -e /verif/mutation/root-try/sim ] || ln -s /verif/sim /verif/mutation/root-try/sim; [ -e /verif/mutation/root-try/known_findings.json ] || ln -s /verif/known_findings.json /verif/mutation/root-try/known_findings.json
 for id in "$@"; do
-  out=$(cd /verif && ./run.sh "$id" quick 2>&1 | grep -v "^port closed")
-  code=$?
+  out=$(cd /verif && VERIF_REPO=$WT VERIF_ROOT=/verif/mutation/root-try ./run.sh "$id" quick 2>&1 | grep -v "^port closed")
   v=$(echo "$out" | grep -c "^VIOLATION")
   echo "== $P $id: violations=$v :: $(echo "$out" | grep "clause=" | head -3 | cut -c1-220)"
-  echo "$out" | grep -q "infrastructure error" && echo "$out" | tail -5
+  echo "$out" | grep -q "infrastructure error" && echo "$out" | grep "infrastructure error" | cut -c1-300
 done
-cd /repo && (git revert --abort 2>/dev/null; git reset -q --hard HEAD)
-git -C /repo status --short | head -3
+(git -C $WT revert --abort 2>/dev/null; git -C $WT reset -q --hard HEAD; git -C $WT clean -fdq)
